@@ -330,10 +330,37 @@ def parsePEL(stream: DataStream, config: Config, exit_on_error: bool):
     return eid, prettyPrint(json.dumps(out, indent=4))
 
 
+class PELFile:
+    """
+    Gives the content of one file of a PEL directory.  A file that cannot be
+    opened or read (dangling link, no permission, I/O error) is reported on
+    stderr and treated as empty, so that it is skipped like any other file
+    that does not hold a PEL instead of ending the whole run.
+    """
+
+    def __init__(self, file: str):
+        self.file = file
+
+    def __enter__(self):
+        return self
+
+    def __exit__(self, *exc):
+        return False
+
+    def read(self) -> bytes:
+        try:
+            with open(self.file, 'rb') as fd:
+                return fd.read()
+        except OSError as e:
+            print(f"Exception: Unable to read {self.file}: {e}",
+                  file=sys.stderr)
+            return bytes()
+
+
 def parseAndWriteOutput(file: str, output_dir: str, config: Config,
                         delete_after_parsing: bool) -> None:
 
-    with open(file, 'rb') as fd:
+    with PELFile(file) as fd:
         data = fd.read()
         stream = DataStream(data, byte_order='big', is_signed=False)
 
@@ -494,7 +521,7 @@ def parsePelFromPLID(path: str, config: Config):
     root, file_list = getFileList(path, config.extension, config.rev)
     final_summary = {}
     for file in file_list:
-        with open(os.path.join(root, file), 'rb') as fd:
+        with PELFile(os.path.join(root, file)) as fd:
             data = fd.read()
             stream = DataStream(data, byte_order='big', is_signed=False)
             try:
@@ -528,7 +555,7 @@ def parsePelFromSRCID(path: str, config: Config):
     root, file_list = getFileList(path, config.extension, config.rev)
     final_summary = {}
     for file in file_list:
-        with open(os.path.join(root, file), 'rb') as fd:
+        with PELFile(os.path.join(root, file)) as fd:
             data = fd.read()
             stream = DataStream(data, byte_order='big', is_signed=False)
             try:
@@ -594,7 +621,7 @@ def extractAndSummarizePEL(file: str, config: Config):
     Returns: Event ID (eid) and summary extracted from the PEL.
             If no PEL is parsed, empty strings are returned.
     """
-    with open(file, 'rb') as fd:
+    with PELFile(file) as fd:
         data = fd.read()
         stream = DataStream(data, byte_order='big', is_signed=False)
         try:
@@ -647,7 +674,7 @@ def extractAllPELsData(path: str, config: Config):
         print("[")
     firstPELPrinted = False
     for file in file_list:
-        with open(os.path.join(root, file), 'rb') as fd:
+        with PELFile(os.path.join(root, file)) as fd:
             data = fd.read()
             try:
                 stream = DataStream(data, byte_order='big', is_signed=False)
@@ -695,7 +722,7 @@ def printPELCount(path: str, config: Config):
     count = 0
     root, file_list = getFileList(path, config.extension)
     for file in file_list:
-        with open(os.path.join(root, file), 'rb') as fd:
+        with PELFile(os.path.join(root, file)) as fd:
             data = fd.read()
             stream = DataStream(data, byte_order='big', is_signed=False)
             try:
